@@ -82,6 +82,16 @@ def run(ctx):
         r = s4.value_check(ctx, [(c, fs)], H)[0]
         if r['status'] in ('differ', 'implerror'):
             cex.insert(0, c03.value_cex([r], [(c, fs)])[0])
+    # the deterministic trace of the C03 long-run family, observed to horizon 8 by &del formulas (iterations that run over many states, nested modalities)
+    a_, b_ = ('atom', 'a'), ('atom', 'b')
+    pa_, pb_, sk_ = ('patom', 'a'), ('patom', 'b'), ('skip',)
+    dfs = [('dia', ('star', sk_), b_), ('box', ('star', ('seq', sk_, sk_)), a_), ('dia', ('star', ('choice', pa_, ('seq', sk_, pb_))), ('final',)),
+           ('box', ('seq', ('star', pa_), ('test', b_)), ('dia', ('seq', sk_, sk_), a_)), ('dia', ('seq', ('seq', sk_, sk_), ('seq', sk_, ('seq', sk_, sk_))), a_), ('box', ('star', ('seq', ('test', a_), sk_)), ('dia', sk_, ('true',))),
+           ('dia', ('star', ('seq', sk_, ('seq', sk_, sk_))), ('box', sk_, ('false',))), ('box', ('choice', ('star', pb_), ('seq', sk_, ('star', pa_))), ('dia', ('star', sk_), b_))]
+    lctx = c03.long_run_items()[0][0]
+    lits = [(lctx, [('del', f) for f in dfs[i:i + 4]]) for i in range(0, len(dfs), 4)]
+    lrecs = s4.value_check(ctx, lits, 8)
+    cex += c03.value_cex(lrecs, lits)
     progs = constraint_programs(ctx)
     maxbits = 12 if ctx.quick else 13
     H2 = 3 if ctx.quick else 4
@@ -108,7 +118,7 @@ def run(ctx):
     for r in recs:
         stat[r['status']] = stat.get(r['status'], 0) + 1
     nontriv = len({r['program'] for r in recs if r['status'] == 'agree' and 0 < r['true_values'] < r['values']})
-    cov = {'evaluations': len(recs) + len(recs2) + len(srecs), 'structure_status_histogram': sstat, 'structure_events_compared': sum(r['events'] for r in srecs), 'distinct_nontrivial': nontriv + res2['coverage']['distinct_nontrivial'],
+    cov = {'evaluations': len(recs) + len(recs2) + len(srecs), 'long_run_status': [r['status'] for r in lrecs], 'structure_status_histogram': sstat, 'structure_events_compared': sum(r['events'] for r in srecs), 'distinct_nontrivial': nontriv + res2['coverage']['distinct_nontrivial'],
            'rule': 'witness programs: random context + 1-3 witness rules over &del formulas (nesting <= 3, normal-form paths of depth <= 3, atoms a, b, p(1)); horizons 0..%d of one '
                    'incremental run; every state of (a seeded sample of) the answer sets compared with LDL.dsat; non-trivial = witness values neither all true nor all false; '
                    'constraint programs: %s; structure: %d programs with &del atoms (normal-form paths; alone, next to the other modality / a sub-formula / &tel formulas), the backend calls of Theory.translate compared event by event with the extracted operational model' % (H, res2['coverage']['rule'], len(srecs)),
